@@ -23,6 +23,7 @@ fn graph_cfgs() -> Vec<Arc<ExchCfg>> {
             menu.arrive = vec![1];
             menu.read_bufs = (0..=n + 2).collect();
             let mut cfg = ExchCfg::new("C08", ReqCfg::new("GET", "1.1", "http://a.test/"), vec![], vec![ServerMsg { msg, gate: Gate::AfterBody }], b"HTT".to_vec(), menu).expect("cfg");
+            cfg.scope = scope;
             if n > 0 {
                 cfg.start_at = Some("RecvBody");
             } else {
@@ -39,11 +40,17 @@ fn graph_cfgs() -> Vec<Arc<ExchCfg>> {
                 menu.read_bufs = (0..=4).collect();
                 let mut cfg = ExchCfg::new("C08", ReqCfg::new("GET", "1.1", "http://a.test/"), vec![], vec![ServerMsg { msg, gate: Gate::AfterBody }], vec![], menu).expect("cfg");
                 cfg.start_at = Some("RecvBody");
+                cfg.scope = scope;
                 out.push(Arc::new(cfg));
             }
         }
     }
     out
+}
+
+/// C08 owns the length / close-delimited readers and the must-close mark of close-delimited bodies.
+fn scope(k: &str) -> bool {
+    crate::props::c07::scope(k) || k.starts_with("verdict:") || k.starts_with("proceed:wrong-successor-from-RecvResponse")
 }
 
 thread_local! {
